@@ -82,7 +82,7 @@ func allOptSets() []optSet {
 		for _, ext := range []string{"", ".txt"} {
 			for ui, upd := range []*bool{nil, &t, &f} {
 				for ji, js := range []*snaps.JSONConfig{nil, {Width: 20, Indent: "\t", SortKeys: false}} {
-					for _, sub := range []string{"", "nested/dir"} {
+					for _, sub := range []string{"", "nested/dir", "rate 50%off"} {
 						out = append(out, optSet{Name: fmt.Sprintf("file=%q ext=%q upd=%d json=%d sub=%q", file, ext, ui, ji, sub), File: file, Ext: ext, Upd: upd, JSON: js, Sub: sub})
 					}
 				}
@@ -168,11 +168,53 @@ func runSeq(c *vkit.Ctx, o optSet, seq []string, shared bool, in any) (map[strin
 		c.Violate("other-config-changed", "", fmt.Sprintf("an unrelated Config changed after %v: %s -> %s", seq, fpB, fp), in)
 		ok = false
 	}
+	// absolute oracle: the C11 location function for this option set and sequence
+	if ok {
+		want := map[string]bool{}
+		sk := map[string]int{}
+		for _, api := range seq {
+			if o.Upd != nil && !*o.Upd {
+				break // Update(false): nothing may be created
+			}
+			base, ext := o.File, o.Ext
+			switch api {
+			case "ssnap", "sjson":
+				if base == "" {
+					base = "TestC_sub"
+				}
+				if api == "sjson" && ext == "" {
+					ext = ".json"
+				}
+				sk[base+ext]++ // the ordinal counts calls with the same file name pattern
+				want[filepath.Join(o.Sub, fmt.Sprintf("%s_%d.snap%s", base, sk[base+ext], ext))] = true
+			default:
+				if base == "" {
+					base = "c12_test"
+				}
+				want[filepath.Join(o.Sub, base+".snap"+ext)] = true
+			}
+		}
+		got := tree(root)
+		if fmt.Sprint(treeKeys(got)) != fmt.Sprint(keysOfBool(want)) {
+			c.Violate("location-not-a-function-of-options", "", fmt.Sprintf("options {%s} sequence %v (shared=%v): created %v, the options give %v", o.Name, seq, shared, treeKeys(got), keysOfBool(want)), in)
+			ok = false
+		}
+		c.Count("location_checks", 1)
+	}
 	return tree(root), outcomes, ok
 }
 
+func keysOfBool(m map[string]bool) []string {
+	ks := make([]string, 0, len(m))
+	for k := range m {
+		ks = append(ks, k)
+	}
+	sort.Strings(ks)
+	return ks
+}
+
 func checkC12(c *vkit.Ctx) {
-	c.P.Rule = "case = (option set, sequence of 1..4 entry points) - ALL 780 sequences over the five Match* entry points x 48 option sets (Filename x Ext x Update x JSON x nested Dir); each sequence is executed twice in fresh directories: through one shared Config and through a freshly built identical Config per call; oracle: reflection fingerprint of the Config (and of an unrelated Config and of WithConfig()) before/after every call, and equality of created relative paths, file bytes and outcomes between the two executions; non-trivial = sequence of length >= 2 (an earlier call can influence a later one); distinct by (option set, sequence); thorough adds concurrent mixes through one Config under the race detector"
+	c.P.Rule = "case = (option set, sequence of 1..4 entry points) - ALL 780 sequences over the five Match* entry points x 72 option sets (Filename x Ext x Update x JSON x nested Dir); each sequence is executed twice in fresh directories: through one shared Config and through a freshly built identical Config per call; oracle: reflection fingerprint of the Config (and of an unrelated Config and of WithConfig()) before/after every call, and equality of created relative paths, file bytes and outcomes between the two executions; non-trivial = sequence of length >= 2 (an earlier call can influence a later one); distinct by (option set, sequence); thorough adds concurrent mixes through one Config under the race detector"
 	sets := allOptSets()
 	var seqs [][]string
 	var rec func(pre []string, n int)
@@ -226,7 +268,7 @@ func checkC12(c *vkit.Ctx) {
 		c.P.Exhaustive = map[string]bool{}
 	}
 	if os.Getenv("VERIF_RACE_BUILD") != "1" {
-		c.P.Exhaustive["sequences<=4_x_48_option_sets"] = c.OnlyCase < 0
+		c.P.Exhaustive["sequences<=4_x_72_option_sets"] = c.OnlyCase < 0
 	}
 	if c.P.Shard == 0 {
 		c.Count("option_sets", len(sets))
@@ -235,7 +277,7 @@ func checkC12(c *vkit.Ctx) {
 
 	// concurrent mixes through one Config (meaningful under -race: thorough tier / C06)
 	if os.Getenv("VERIF_RACE_BUILD") == "1" {
-		n := c.N(40, 400)
+		n := c.N(100, 3000)
 		for j := 0; j < n; j++ {
 			i := total + j
 			if !c.Mine(i) {
